@@ -11,6 +11,7 @@ import (
 	"go/format"
 	"os"
 	"path/filepath"
+	"reflect"
 	"go/scanner"
 	gotoken "go/token"
 	"go/types"
@@ -238,4 +239,25 @@ func specStdName(p string) string {
 		return ""
 	}
 	return pkg.Name
+}
+
+// specStringLitIs: lit is one Go string literal (raw or interpreted) whose value is exactly val.
+func specStringLitIs(lit string, val string) bool {
+	if !specOneToken(lit, "STRING") {
+		return false
+	}
+	u, err := strconv.Unquote(lit)
+	return err == nil && u == val
+}
+
+// specTagLookup: reflect.StructTag(value of lit).Lookup(key) returns val. Symbolically the
+// conventional-format parser of package reflect is trusted: the obligation is that lit
+// denotes the conventional tag text `conventional` (which contains key:"val").
+func specTagLookup(lit, conventional, key, val string) bool {
+	u, err := strconv.Unquote(lit)
+	if err != nil {
+		return false
+	}
+	got, ok := reflect.StructTag(u).Lookup(key)
+	return ok && got == val
 }
